@@ -48,6 +48,8 @@ def check(case, rec):
                   if not isinstance(call, dict) for o in call)
     rec.nontrivial(has_str or nseg_expected >= 2 or bool(prog['index']))
     rec.label('index=%s' % prog['index'], 'dest=' + prog['dest'])
+    if prog.get('file_name') and not prog['file_name'].endswith('.tdms'):
+        rec.label('file_name_without_tdms_extension')
     if res['model'].rejected_calls:
         rec.label('with_rejected_calls_in_between')
     if has_str:
